@@ -109,6 +109,29 @@ func runC30(c *Ctx) {
 	for _, m := range []string{"Set", "Unset"} {
 		fn := P.Func(pkg + ".(*Transaction)." + m)
 		c.touch(fn)
+		// Set/Unset may hand the append to one shared private method (t.appendDelta(path, value))
+		if len(fn.Blocks) <= 2 {
+			var deleg *ssa.Function
+			nc, nst := 0, 0
+			for _, b := range fn.Blocks {
+				for _, in := range b.Instrs {
+					if _, isSt := in.(*ssa.Store); isSt {
+						nst++
+					}
+					if cc, ok := in.(ssa.CallInstruction); ok {
+						nc++
+						if h := cc.Common().StaticCallee(); h != nil && h.Pkg == fn.Pkg && len(cc.Common().Args) > 0 && cc.Common().Args[0] == ssa.Value(fn.Params[0]) &&
+							P.PrivateHelperOf(h, map[string]bool{pkg + ".(*Transaction).Set": true, pkg + ".(*Transaction).Unset": true}) {
+							deleg = h
+						}
+					}
+				}
+			}
+			if deleg != nil && nc == 1 && nst == 0 {
+				fn = deleg
+				c.touch(fn)
+			}
+		}
 		okA := false
 		nStores := 0
 		for _, b := range fn.Blocks {
